@@ -3,6 +3,9 @@ PROP = dict(
     libs=["explore", "canon", "sim", "wireobs", "wiremon"],
     targets=[
         dict(name="e2", pkg=".", test="TestVerifC13", files=["mc/c13/*.go"], parts=["faults", "injections"]),
+        dict(name="e3", pkg="internal/handshake", test="TestVerifC13E3", files=["mc/c13/e3/*.go"], parts=["e3-retry-tag"],
+             libs=["explore", "canon", "sched", "vsync", "ref5"], shards=1, gomaxprocs=0, env={},
+             rewrite={"internal/handshake/retry.go": [('"sync"', 'sync "github.com/refraction-networking/uquic/internal/verifmc/vsync"')]}),
         dict(name="race", pkg=".", test="TestVerifC13Race", files=["mc/c13/*.go", "mc/c13/race/*.go"], parts=["handshake-race-pass"],
              race=True, shards=4, gomaxprocs=4, env={"GORACE": "halt_on_error=1", "GODEBUG": "randseednop=0"}),
     ],
